@@ -25,6 +25,12 @@ import (
 //	    under an ordinary element: Parse(Render(tree)) has the same element
 //	    skeleton (no additional element, comment or attribute) and the same
 //	    text / attribute values modulo CR/CRLF→LF and NUL removal/replacement.
+//	(c') the same comparison with a text over a newline/CR/NUL/escape
+//	    alphabet as first (or only, or second) child of every element name in
+//	    the package's special-element table that can hold text in body
+//	    content — pre, listing, textarea (the parser ignores one newline after
+//	    their start tags), title, the ordinary block elements — plus controls;
+//	    raw-text elements are executed but not judged.
 //
 // c39_test.go is listed as a shared helper of this check (alphabets, c39Join).
 
@@ -302,6 +308,194 @@ func c40CheckTree(w *vx.W, x c40TreeCase) {
 	}
 }
 
+// ---- (c'), first-child text under every element name the parser or the
+// renderer treats specially
+
+// c40FirstTextAlphabet: fragments of the text value; every concatenation of
+// up to the bound is a text, so that "\n", "\nfoo", "\n\n", "foo\n", "\r\n…",
+// NUL-then-newline and escaped-markup-after-newline all occur.
+var c40FirstTextAlphabet = []string{"\n", "foo", "\r\n", "\r", "\x00", " ", "<b>", "&amp;"}
+
+// The classification below is written from the HTML standard, not read from
+// the code under test; it only decides which element names are inside the
+// property ("ordinary elements") and which normalisation applies.
+var (
+	// void or void-like in the parser: cannot have a text child (Render
+	// reports an error or the parser acknowledges the tag as self-closing).
+	c40ElVoid = c40Set("area", "base", "basefont", "bgsound", "br", "col", "embed", "frame", "hr", "img", "input", "keygen", "link", "meta", "param", "source", "track", "wbr")
+	// start tag ignored, merged or re-homed when it occurs in body content, or
+	// text child foster-parented / restricted: structure, not ordinary content.
+	c40ElStructural = c40Set("html", "head", "body", "frameset", "table", "caption", "colgroup", "tbody", "tfoot", "thead", "tr", "td", "th", "select", "template")
+	// raw text elements and those the parser handles with the generic raw
+	// text algorithm (scripting on): Render writes their text literally, the
+	// property does not speak about them. Executed and classified, not judged.
+	c40ElRawText = c40Set("iframe", "noembed", "noframes", "noscript", "plaintext", "script", "style", "xmp")
+	// escapable raw text elements: text is escaped and must survive, child
+	// elements are impossible.
+	c40ElRCDATA = c40Set("textarea", "title")
+	// "if the next token is a U+000A LINE FEED, ignore it" after the start tag.
+	c40ElNewlineEating = c40Set("pre", "listing", "textarea")
+	// controls that are in none of the package's tables.
+	c40ElControls = []string{"span", "b", "a", "em", "x-foo"}
+)
+
+func c40Set(names ...string) map[string]bool {
+	m := map[string]bool{}
+	for _, n := range names {
+		m[n] = true
+	}
+	return m
+}
+
+// c40FirstTextElements: every name of the package's own special-element
+// table (which contains every element with its own start-tag or text rule in
+// the parser, the tokenizer's raw-text switch and Render's tables) that can be
+// a text container in body content, then the controls. Sorted, so the case
+// order is deterministic.
+func c40FirstTextElements() (judged, observed, excluded []string) {
+	var names []string
+	for n := range isSpecialElementMap {
+		names = append(names, n)
+	}
+	sort.Strings(names)
+	for _, n := range names {
+		switch {
+		case c40ElVoid[n] || c40ElStructural[n]:
+			excluded = append(excluded, n)
+		case c40ElRawText[n]:
+			observed = append(observed, n)
+		default:
+			judged = append(judged, n)
+		}
+	}
+	judged = append(judged, c40ElControls...)
+	return
+}
+
+type c40FirstTextCase struct {
+	Idx    []int  `json:"fragments"`
+	Elem   string `json:"element"`
+	Layout int    `json:"layout"` // 0: text only child; 1: text, then <b>x</b>; 2: <b>x</b>, then text
+}
+
+func c40FirstTextTree(elem string, layout int, T string) *Node {
+	doc := &Node{Type: DocumentNode}
+	htmlEl, head, body := c40New(atom.Html), c40New(atom.Head), c40New(atom.Body)
+	doc.AppendChild(htmlEl)
+	htmlEl.AppendChild(head)
+	htmlEl.AppendChild(body)
+	el := &Node{Type: ElementNode, Data: elem, DataAtom: atom.Lookup([]byte(elem))}
+	el.Attr = []Attribute{{Key: "title", Val: "v"}}
+	body.AppendChild(el)
+	child := func() {
+		b := c40New(atom.B)
+		b.AppendChild(&Node{Type: TextNode, Data: "x"})
+		el.AppendChild(b)
+	}
+	if layout == 2 {
+		child()
+	}
+	if T != "" {
+		el.AppendChild(&Node{Type: TextNode, Data: T})
+	}
+	if layout == 1 {
+		child()
+	}
+	tail := c40New(atom.Div)
+	body.AppendChild(tail)
+	tail.AppendChild(&Node{Type: TextNode, Data: "end"})
+	return doc
+}
+
+func c40DumpString(doc *Node) string {
+	var sb strings.Builder
+	b := 10000
+	c40Dump(&sb, doc, &b)
+	return sb.String()
+}
+
+func c40CheckFirstText(w *vx.W, x c40FirstTextCase) {
+	T := string(c39Join(c40FirstTextAlphabet, x.Idx))
+	doc := c40FirstTextTree(x.Elem, x.Layout, T)
+	elClass := "plain-element"
+	switch {
+	case c40ElRawText[x.Elem]:
+		elClass = "raw-text-element"
+	case c40ElNewlineEating[x.Elem]:
+		elClass = "newline-eating-element"
+	case c40ElRCDATA[x.Elem]:
+		elClass = "rcdata-element"
+	}
+	var buf bytes.Buffer
+	err := Render(&buf, doc)
+	if c40ElRawText[x.Elem] {
+		// outside the property: executed (no panic, terminates), classified only
+		if err != nil {
+			w.Outcome("raw-text element: Render refused (not judged)")
+			return
+		}
+		doc2, err := Parse(strings.NewReader(buf.String()))
+		if err == nil && c40DumpString(doc2) == c40DumpString(doc) {
+			w.Outcome("raw-text element: reproduced (not judged)")
+		} else {
+			w.Outcome("raw-text element: not reproduced (not judged)")
+		}
+		return
+	}
+	if err != nil {
+		w.Failf("C40/render-parse/first-text/render-error/"+elClass, "<%s> layout %d T=%q: Render failed: %v", x.Elem, x.Layout, T, err)
+		return
+	}
+	out := buf.String()
+	doc2, err := Parse(strings.NewReader(out))
+	if err != nil {
+		w.Failf("C40/render-parse/first-text/parse-error/"+elClass, "<%s> layout %d T=%q: Parse(%q) failed: %v", x.Elem, x.Layout, T, out, err)
+		return
+	}
+	want, got := c40DumpString(doc), c40DumpString(doc2)
+	textFirst := x.Layout != 2
+	if want != got {
+		if textFirst && c40ElNewlineEating[x.Elem] && strings.HasPrefix(T, "\r") {
+			// CR / CRLF as the very first character after the start tag of
+			// a newline-eating element: the tokenizer's CR→LF normalisation
+			// and the parser's "ignore one LF after the start tag" compose, and
+			// the property does not say whether that is within "the parser's
+			// documented newline normalization". Not judged.
+			if alt := c40DumpString(c40FirstTextTree(x.Elem, x.Layout, c40Norm(T)[1:])); alt == got {
+				w.Outcome("leading CR consumed as the start-tag newline (not judged)")
+				return
+			}
+		}
+		cls := "values-differ"
+		we, wc := c40Count(doc)
+		ge, gc := c40Count(doc2)
+		switch {
+		case ge != we:
+			cls = "element-skeleton-differs"
+		case gc != wc:
+			cls = "comment-node-created"
+		}
+		trig := "text-without-leading-newline"
+		switch {
+		case !textFirst:
+			trig = "text-after-element-child"
+		case strings.HasPrefix(T, "\n"):
+			trig = "first-child-text-with-leading-LF"
+		case strings.HasPrefix(T, "\r"):
+			trig = "first-child-text-with-leading-CR"
+		}
+		w.Failf("C40/render-parse/first-text/"+cls+"/"+elClass+"/"+trig, "<%s> layout %d T=%q: rendered %q; original tree %s; re-parsed tree %s", x.Elem, x.Layout, T, out, want, got)
+		return
+	}
+	w.Nontrivial()
+	switch {
+	case textFirst && strings.HasPrefix(c40Norm(T), "\n"):
+		w.Outcome("first-text ok (leading newline, " + elClass + ")")
+	default:
+		w.Outcome("first-text ok (" + elClass + ")")
+	}
+}
+
 // c40Count counts element and comment/doctype/other nodes.
 func c40Count(root *Node) (elements, others int) {
 	stack := []*Node{root}
@@ -338,6 +532,8 @@ func TestVerif_C40(t *testing.T) {
 		tokDepth := vx.Pick(c, 4, 5)
 		attrDepth := vx.Pick(c, 4, 5)
 		treeAll, treeDeep := vx.Pick(c, 3, 3), vx.Pick(c, 4, 5)
+		firstDepth := vx.Pick(c, 3, 4)
+		ftJudged, ftObserved, ftExcluded := c40FirstTextElements()
 		var shapeNames []string
 		for _, s := range c40Shapes {
 			shapeNames = append(shapeNames, s.name)
@@ -346,7 +542,10 @@ func TestVerif_C40(t *testing.T) {
 			"(b) token-string: every input of <= %d fragments of the C39 alphabet %q, every attrs input (C39 openers %q + <= %d fragments of %q + tails) and every template %q filled with <= %d fragments of %q is tokenized (context \"\", CDATA off); every StartTag/EndTag/SelfClosingTag/Comment/Doctype token must satisfy: NewTokenizer(tok.String()) yields one token equal in Type, Data, DataAtom and Attr and then EOF. "+
 			"(c) render-parse: tree html>head,body>SHAPE[title=V id=z]>text T followed by <div>end</div> in body, SHAPE in %q, value x = every concatenation of <= %d fragments of %q (for shapes p and div up to %d fragments), modes V=T=x / T=x / V=x; Parse(Render(tree)) must equal the tree (elements, namespaces, attribute set, values, text) modulo CR/CRLF->LF and NUL (dropped or U+FFFD). non-trivial = a non-text token round-tripped (b), the tree comparison was reached (c), the string contained an escaped character or '&' (a)",
 			escDepth, c40EscAlphabet, tokDepth, tokAl, c39AttrOpeners, attrDepth, c39AttrAlphabet, c40TokTemplates, valDepth, c40TokValues, shapeNames, treeAll, c40ValAlphabet, treeDeep))
-		c.Assume("(c) covers text and attribute values under ordinary HTML elements only: raw-text (script, style, xmp, iframe, noembed, noframes, noscript), escapable raw-text (title, textarea), plaintext, void elements, pre/listing/textarea (leading-newline rule), template, foreign (svg/math) content and text directly under body/html/table are excluded, as are the badly-formed trees described in Render's doc comment (nested <a>, <a> under <table>, …); U+FFFD and invalid UTF-8 are not in the value alphabet")
+		c.Rule(fmt.Sprintf("(c') render-parse-first-text: tree html>head,body>E[title=v]>children followed by <div>end</div>, for E = every name of the package's isSpecialElementMap that can hold text in body content (%q: includes the newline-eating pre, listing, textarea and the escapable-raw-text title, textarea) plus the controls %q; text T = every concatenation of <= %d fragments of %q; layouts: T the only child / T then <b>x</b> / <b>x</b> then T (title, textarea: only the first); same oracle as (c). The raw-text names %q are executed with T as only child and only classified (reproduced or not), never judged. non-trivial = the comparison was reached and succeeded",
+			ftJudged[:len(ftJudged)-len(c40ElControls)], c40ElControls, firstDepth, c40FirstTextAlphabet, ftObserved))
+		c.Assume("(c) covers text and attribute values under ordinary HTML elements only; attribute values and the markup-like value alphabet only under the 10 shapes of (c), under the other element names of (c') only the text over the newline/NUL/escape alphabet. Raw-text elements (script, style, xmp, iframe, noembed, noframes, noscript, plaintext: Render writes their text literally) are executed but not judged; void elements, foreign (svg/math) content, text directly under body/html/table and the badly-formed trees described in Render's doc comment (nested <a>, <a> under <table>, …) are excluded; U+FFFD and invalid UTF-8 are not in the value alphabets")
+		c.Assume(fmt.Sprintf("(c') special-element names not used as text containers (void, or start tag ignored/re-homed in body content, or restricted content): %q. A text whose first character is CR directly after the start tag of pre/listing/textarea loses that line break on re-parse (CR→LF, then the parser's ignore-one-LF rule); whether that is covered by \"the parser's documented newline normalization\" is not decided by the property, so exactly that difference is classified, not judged", ftExcluded))
 		c.Assume("(b) compares only the first token's Type/Data/DataAtom/Attr and requires EOF after it; text tokens are outside the property statement")
 
 		// ---- (a)
@@ -392,6 +591,28 @@ func TestVerif_C40(t *testing.T) {
 				return true
 			})
 		}, c40CheckTree)
+
+		// ---- (c') first-child text under every special element name
+		vx.Enumerate(c, "render-parse-first-text", vx.Opts{}, func(yield func(c40FirstTextCase) bool) {
+			vx.Strings(c40Idx(len(c40FirstTextAlphabet)), 0, firstDepth, func(s []int) bool {
+				for _, el := range ftJudged {
+					for layout := 0; layout < 3; layout++ {
+						if layout > 0 && c40ElRCDATA[el] {
+							break
+						}
+						if !yield(c40FirstTextCase{Idx: s, Elem: el, Layout: layout}) {
+							return false
+						}
+					}
+				}
+				for _, el := range ftObserved {
+					if !yield(c40FirstTextCase{Idx: s, Elem: el}) {
+						return false
+					}
+				}
+				return true
+			})
+		}, c40CheckFirstText)
 
 		// ---- (b)
 		vx.Enumerate(c, "token-string-attrs", vx.Opts{}, func(yield func(c40TokCase) bool) {
